@@ -16,7 +16,7 @@
    frees every node of the tree exactly once, nothing else, each node after its whole
    subtree, and before the tree dies the nodes are exactly the blocks node_create handed
    out; the implementation side is tied to it by the node-memory oracle of
-   harness/c/c_harness.py when /repo carries the counter hook build/c_nodes_hook.diff;
+   harness/c/c_harness.py through the counter hook of /repo commit 5ca51f7 (_verif_counters);
    the temporary PyMem_Malloc arrays of the split paths are plain local lists in the
    model, which has no allocation events for them: only that oracle counts them); (2) the
    allocation protocol of the tree OBJECT (tp_alloc / tp_free / GC tracking, what makes a
